@@ -296,6 +296,9 @@ func runDisk(env *Env) {
 		dr.checkCrashImages(ds)
 	}
 	if len(env.Res.Violations) == 0 {
+		// a failed LoadFromDisk does not release what it had built: the allocator-wide
+		// leak oracle (C07) is only meaningful in the fault-free backup variant
+		ne.allocShared = variant != "backup"
 		ne.finalStages()
 	}
 }
